@@ -29,7 +29,7 @@ pub struct Config {
     pub ids: bool,
     pub setpgid: bool,
     pub via_path: bool,
-    /// parent's own fds 0..2 closed during the launch (bit mask); only with all streams inherited
+    /// parent's own fds 0..2 closed during the launch (bit mask): a daemon-like parent
     #[serde(default)]
     pub closed_std: u8,
 }
@@ -170,7 +170,7 @@ fn launch(ctx: &Ctx, case: &LaunchCase) -> Run {
     if let Fault::Inject(kind, k, errno, in_child) = &case.fault {
         ip::fault_arm(*kind, *k, *errno, *in_child);
     }
-    let closed = if case.cfg.stdin == SK::None && case.cfg.stdout == SK::None && case.cfg.stderr == SK::None { case.cfg.closed_std & 7 } else { 0 };
+    let closed = case.cfg.closed_std & 7;
     let before = if closed != 0 {
         let _g = CloseGuard::new(closed);
         fd_snapshot()
@@ -178,11 +178,10 @@ fn launch(ctx: &Ctx, case: &LaunchCase) -> Run {
         before
     };
     ip::COUNTING.store(true, SeqCst);
-    let (res, after_closed) = {
-        let _g = CloseGuard::new(closed);
-        let r = Popen::create(&argv, cfg);
-        (r, fd_snapshot())
-    };
+    // stays closed until the Popen's handles are gone (they may sit on these numbers)
+    let closed_guard = CloseGuard::new(closed);
+    let res = Popen::create(&argv, cfg);
+    let after_closed = fd_snapshot();
     ip::COUNTING.store(false, SeqCst);
     let parent_calls: Vec<u32> = ip::PARENT_CALLS.iter().map(|c| c.load(SeqCst)).collect();
     let fault_hit_parent = ip::FAULT_HIT.load(SeqCst) > 0;
@@ -228,6 +227,7 @@ fn launch(ctx: &Ctx, case: &LaunchCase) -> Run {
             reap_all();
         }
     }
+    drop(closed_guard);
     let sh = ip::shared();
     let child_calls: Vec<u32> = sh.child_calls.iter().map(|c| c.load(SeqCst)).collect();
     let fault_hit = fault_hit_parent || sh.child_fault_hit.load(SeqCst) > 0;
@@ -318,10 +318,7 @@ pub fn config_strategy() -> impl Strategy<Value = Config> {
         let stderr = if stdout == SK::Merge && stderr == SK::Merge { SK::Pipe } else { stderr };
         Config { stdin, stdout, stderr, detached, cwd, ids, setpgid, via_path, closed_std: 0 }
     })
-    .prop_flat_map(|c| {
-        let all_none = c.stdin == SK::None && c.stdout == SK::None && c.stderr == SK::None;
-        (Just(c), if all_none { (0u8..8).boxed() } else { Just(0u8).boxed() })
-    })
+    .prop_flat_map(|c| (Just(c), prop_oneof![3 => Just(0u8), 2 => 1u8..8]))
     .prop_map(|(mut c, m)| {
         c.closed_std = m;
         c
@@ -396,8 +393,7 @@ fn all_configs() -> Vec<Config> {
                 }
                 for detached in [false, true] {
                     for opts in 0..8u8 {
-                        let all_none = stdin == SK::None && stdout == SK::None && stderr == SK::None;
-                        v.push(Config { stdin, stdout, stderr, detached, cwd: opts & 1 != 0, ids: opts & 2 != 0, setpgid: opts & 4 != 0, via_path: (opts ^ (opts >> 1)) & 1 != 0, closed_std: if all_none { opts } else { 0 } });
+                        v.push(Config { stdin, stdout, stderr, detached, cwd: opts & 1 != 0, ids: opts & 2 != 0, setpgid: opts & 4 != 0, via_path: (opts ^ (opts >> 1)) & 1 != 0, closed_std: if (opts as usize + v.len()) % 3 == 0 { ((v.len() / 3) % 7 + 1) as u8 } else { 0 } });
                     }
                 }
             }
